@@ -37,6 +37,16 @@ def scenario_steps(rng, kind, reloads):
             add("change-query(%s)" % b)
             if rng.random() < 0.3:
                 add("toggle-sort")
+    elif kind == "nth-cache":
+        # per-chunk result caches must not survive a change of the searched fields
+        seqs = [("xy", "3", "xyz"), ("ab", "2", "abc"), ("x", "3", "xz"), ("yz", "2..", "yzx"), ("ab", "3", "ab")]
+        rng.shuffle(seqs)
+        for q1, nth, q2 in seqs[:3]:
+            add("change-query(%s)" % q1)
+            add("change-nth(%s)" % nth)
+            add("change-query(%s)" % q2)
+            add("change-query(%s)" % q1)
+            add("change-nth(..)")
     elif kind == "exclude-race":
         # an exclusion immediately followed by another query-changing action while input is still streaming in
         add("change-query(%s)" % rng.choice(["x", "y", "a", ""]))
